@@ -475,6 +475,9 @@ struct tagged_ops
     std::function<cursor_ret(char*, std::size_t, ipath)> tget;
     std::function<cursor_ret(char*, std::size_t, ipath)> named;
     std::function<void(char*, std::size_t, ipath, const bytes&)> tset; // scalars
+    // get_by_tag / set_by_tag with a cursor (wrapper id as in member_ops)
+    std::function<cursor_ret(char*, std::size_t, ipath, int, std::ptrdiff_t&)> tcget;
+    std::function<void(char*, std::size_t, ipath, int, std::ptrdiff_t&, const bytes&)> tcset;
 };
 // structure of a level, names only (for the record-mode driver)
 struct level_struct
@@ -676,7 +679,12 @@ void assign_data(D d, const bytes& b)
 
 #define VH_REG_FIELD(KEY, M, LV, NAME, ISCONST)
 
-#define VH_CGET_BODY(M, LV, NAME)                                             \
+#define VH_CALL_NAMED(NAME, TAG, ...) lv.NAME(__VA_ARGS__)
+#define VH_CALL_GTAG(NAME, TAG, ...) ::sbepp::get_by_tag<TAG>(lv, __VA_ARGS__)
+#define VH_CALL_STAG(NAME, TAG, ...) ::sbepp::set_by_tag<TAG>(lv, __VA_ARGS__)
+#define VH_CGET_BODY(M, LV, NAME) VH_CGET_BODY2(M, LV, NAME, void, VH_CALL_NAMED)
+#define VH_CSET_BODY(M, LV, NAME) VH_CSET_BODY2(M, LV, NAME, void, VH_CALL_NAMED)
+#define VH_CGET_BODY2(M, LV, NAME, TAG, CALL)                                 \
     [](char* p, std::size_t n, ::vh::ipath ip, int w, std::ptrdiff_t& cur)    \
         -> ::vh::cursor_ret                                                   \
     {                                                                         \
@@ -687,26 +695,27 @@ void assign_data(D d, const bytes& b)
         switch(w)                                                             \
         {                                                                     \
         case 0:                                                               \
-            r = ::vh::cret(p, lv.NAME(c));                                    \
+            r = ::vh::cret(p, CALL(NAME, TAG, c));                            \
             break;                                                            \
         case 1:                                                               \
-            r = ::vh::cret(p, lv.NAME(::sbepp::cursor_ops::init(c)));         \
+            r = ::vh::cret(p, CALL(NAME, TAG, ::sbepp::cursor_ops::init(c))); \
             break;                                                            \
         case 2:                                                               \
-            r = ::vh::cret(p, lv.NAME(::sbepp::cursor_ops::dont_move(c)));    \
+            r = ::vh::cret(                                                   \
+                p, CALL(NAME, TAG, ::sbepp::cursor_ops::dont_move(c)));       \
             break;                                                            \
         case 3:                                                               \
             r = ::vh::cret(                                                   \
-                p, lv.NAME(::sbepp::cursor_ops::init_dont_move(c)));          \
+                p, CALL(NAME, TAG, ::sbepp::cursor_ops::init_dont_move(c)));  \
             break;                                                            \
         default:                                                              \
-            lv.NAME(::sbepp::cursor_ops::skip(c));                            \
+            CALL(NAME, TAG, ::sbepp::cursor_ops::skip(c));                    \
         }                                                                     \
         cur = c.pointer() ? c.pointer() - p : ::vh::cur_unset;                \
         return r;                                                             \
     }
 
-#define VH_CSET_BODY(M, LV, NAME)                                             \
+#define VH_CSET_BODY2(M, LV, NAME, TAG, CALL)                                 \
     [](char* p,                                                               \
        std::size_t n,                                                         \
        ::vh::ipath ip,                                                        \
@@ -721,16 +730,16 @@ void assign_data(D d, const bytes& b)
         switch(w)                                                             \
         {                                                                     \
         case 0:                                                               \
-            lv.NAME(val, c);                                                  \
+            CALL(NAME, TAG, val, c);                                          \
             break;                                                            \
         case 1:                                                               \
-            lv.NAME(val, ::sbepp::cursor_ops::init(c));                       \
+            CALL(NAME, TAG, val, ::sbepp::cursor_ops::init(c));               \
             break;                                                            \
         case 2:                                                               \
-            lv.NAME(val, ::sbepp::cursor_ops::dont_move(c));                  \
+            CALL(NAME, TAG, val, ::sbepp::cursor_ops::dont_move(c));          \
             break;                                                            \
         default:                                                              \
-            lv.NAME(val, ::sbepp::cursor_ops::init_dont_move(c));             \
+            CALL(NAME, TAG, val, ::sbepp::cursor_ops::init_dont_move(c));     \
         }                                                                     \
         cur = c.pointer() ? c.pointer() - p : ::vh::cur_unset;                \
     }
@@ -750,10 +759,16 @@ void assign_data(D d, const bytes& b)
                 auto lv = LV(M{p, n}, ip);                                    \
                 ::sbepp::set_by_tag<TAG>(                                     \
                     lv, ::vh::dec<decltype(lv.NAME())>(b));                   \
-            }})
+            },                                                                \
+            VH_CGET_BODY2(M, LV, NAME, TAG, VH_CALL_GTAG),                    \
+            VH_CSET_BODY2(M, LV, NAME, TAG, VH_CALL_STAG)})
 #define VH_REG_TAGGED_view(KEY, M, LV, NAME, TAG)                             \
     static ::vh::reg_tagged VH_CAT(vh_r_, __COUNTER__)(                       \
-        KEY, ::vh::tagged_ops{VH_TGET_BODY(M, LV, NAME, TAG), nullptr})
+        KEY,                                                                  \
+        ::vh::tagged_ops{VH_TGET_BODY(M, LV, NAME, TAG),                      \
+                         nullptr,                                             \
+                         VH_CGET_BODY2(M, LV, NAME, TAG, VH_CALL_GTAG),       \
+                         nullptr})
 
 #define VH_REG_CMEMBER_scalar(KEY, M, LV, NAME)                               \
     static ::vh::reg_member VH_CAT(vh_r_, __COUNTER__)(                       \
